@@ -44,9 +44,14 @@ fn casc<T: CascFormat + Project>(name: &str, data: &[u8]) -> Outcome {
         let _ = p1.project();
         return out;
     }
+    let diag = p1.diagnose();
     let fail = |k: &str, m: String| -> Outcome {
         let mut o = Outcome::ok();
-        o.fail = Some((format!("{name}:{k}"), m));
+        // a value in a known non-round-tripping class gets that class as its key
+        o.fail = Some(match diag {
+            Some(d) => (format!("{name}:{d}"), format!("{k}: {m}")),
+            None => (format!("{name}:{k}"), m),
+        });
         o
     };
     let b1 = match p1.build() {
